@@ -148,6 +148,18 @@ func runSeek(r *core.Run) {
 					tv := linOf(phi)
 					lo := entails(fs, tv)
 					hi := entails(fs, linAtom(lenAtom).add(tv, -1))
+					if !(lo && hi) {
+						// or each target is range-checked in its own branch, before the branches join
+						each := true
+						for i, e := range phi.Edges {
+							ef := edgeFacts(phi.Block().Preds[i], phi.Block())
+							ev := linOf(e)
+							if !entails(ef, ev) || !entails(ef, linAtom(lenAtom).add(ev, -1)) {
+								each = false
+							}
+						}
+						lo, hi = each, each
+					}
 					r.Check(lo && hi, recvName(fn)+".Seek shared range check", st.Pos(), "0 <= target <= Len() entailed by the guards",
 						fmt.Sprintf("the guards %v do not imply 0 <= target <= %s for the position that is stored: a target outside the data is accepted", factStrings(fs), lenAtom))
 					for i, e := range phi.Edges {
@@ -194,7 +206,13 @@ func runSeek(r *core.Run) {
 		for _, b := range fn.Blocks {
 			if ret, ok := lastInstr(b).(*ssa.Return); ok {
 				if c, isC := ret.Results[1].(*ssa.Const); isC && c.IsNil() {
-					r.Check(linOf(ret.Results[0]).equal(linAtom(posAtom)), recvName(fn)+".Seek returns new pos", ret.Pos(), "", "successful Seek does not return the new position")
+					same := linOf(ret.Results[0]).equal(linAtom(posAtom))
+					for _, st := range storesToField(fn, posAtom) {
+						if stripConv(st.Val) == stripConv(ret.Results[0]) && (st.Block() == b || st.Block().Dominates(b)) {
+							same = true // the value just stored
+						}
+					}
+					r.Check(same, recvName(fn)+".Seek returns new pos", ret.Pos(), "", "successful Seek does not return the new position")
 				}
 			}
 		}
@@ -294,31 +312,69 @@ func runEOFStrict(r *core.Run) {
 		if sl.Low == nil || sl.High == nil || sl.Max == nil {
 			r.Fail(name+".Bytes slice bounds", sl.Pos(), "result is not a full slice expression data[off:off+n:off+n]: append on the result could write into the backing data")
 		} else {
-			lo, hi, mx := linOf(sl.Low), linOf(sl.High), linOf(sl.Max)
-			width := hi.add(lo, -1)
-			okW := len(width.T) == 1 && width.C == 0
-			r.Check(lo.equal(linAtom(off)) && hi.equal(mx) && okW, name+".Bytes slice bounds", sl.Pos(), fmt.Sprintf("[%s : %s : %s]", lo, hi, mx),
-				fmt.Sprintf("slice bounds are [%s : %s : %s], want [off : off+n : off+n]", lo, hi, mx))
-			// n' is phi(n, len-off)
-			if phi, ok := stripConv(sl.High).(*ssa.BinOp); ok {
-				var nv ssa.Value = phi.Y
-				if linOf(phi.Y).equal(linAtom(off)) {
-					nv = phi.X
+			lo := linOf(sl.Low)
+			sameHM := stripConv(sl.High) == stripConv(sl.Max) || linOf(sl.High).equal(linOf(sl.Max))
+			// the end of the slice: off+n on the full path, len(data) on the clamped one — as a phi of ends, or as off plus a
+			// phi of lengths
+			leaves := linLeaves(sl.High, 0)
+			good := len(leaves) > 0
+			full, clamp := false, false
+			for _, l := range leaves {
+				d := l.add(linAtom(off), -1)
+				switch {
+				case d.equal(linAtom(n)):
+					full = true
+				case d.equal(linAtom(dataLen).add(linAtom(off), -1)):
+					clamp = true
+				default:
+					good = false
 				}
-				if p, ok := stripConv(nv).(*ssa.Phi); ok {
-					good := true
-					for _, e := range p.Edges {
-						l := linOf(e)
-						if !l.equal(linAtom(n)) && !l.equal(linAtom(dataLen).add(linAtom(off), -1)) {
-							good = false
-						}
-					}
-					r.Check(good, name+".Bytes clamped length", p.Pos(), "n or len(data)-off", "the clamped length is neither n nor len(data)-off")
-				}
+			}
+			var ls []string
+			for _, l := range leaves {
+				ls = append(ls, l.String())
+			}
+			r.Check(lo.equal(linAtom(off)) && sameHM && good && full, name+".Bytes slice bounds", sl.Pos(), fmt.Sprintf("[%s : %v : same]", lo, ls),
+				fmt.Sprintf("slice bounds are [%s : %v : max equal to high: %v], want [off : off+n : off+n] (with the end clamped to len(data) when fewer than n bytes remain)", lo, ls, sameHM))
+			if clamp || len(leaves) > 1 {
+				r.Check(good, name+".Bytes clamped length", sl.Pos(), "n or len(data)-off", "the clamped length is neither n nor len(data)-off")
 			}
 		}
 	}
 	r.Floor("in-memory Bytes implementations", seen, 1)
+}
+
+// linLeaves: the affine values v can take, expanding phis (also inside one level of + / -).
+func linLeaves(v ssa.Value, depth int) []Lin {
+	v = stripConv(v)
+	if depth > 3 {
+		return []Lin{linOf(v)}
+	}
+	switch x := v.(type) {
+	case *ssa.Phi:
+		var out []Lin
+		for _, e := range x.Edges {
+			out = append(out, linLeaves(e, depth+1)...)
+		}
+		return out
+	case *ssa.BinOp:
+		if x.Op == token.ADD || x.Op == token.SUB {
+			sign := int64(1)
+			if x.Op == token.SUB {
+				sign = -1
+			}
+			var out []Lin
+			for _, a := range linLeaves(x.X, depth+1) {
+				for _, b := range linLeaves(x.Y, depth+1) {
+					out = append(out, a.add(b, sign))
+				}
+			}
+			if len(out) <= 8 {
+				return out
+			}
+		}
+	}
+	return []Lin{linOf(v)}
 }
 
 func stripConv(v ssa.Value) ssa.Value {
